@@ -41,9 +41,9 @@ META = {
 DIMS = ("depth", "fan", "wrap", "nest-", "xtype-", "xdims", "split", "xpre-", "ypre-")
 
 
-def record_for(prog, j, r):
+def record_for(prog, j, r, asbuilt):
     v = prog["variants"][j]
-    tags = sorted(v["ctags"])
+    tags = sorted(v["ctags"]) + ["asbuilt-predicted" if inst_run.asbuilt_predicts(r, asbuilt) else "not-asbuilt-predicted"]
     if r["kind"] == "exc":
         rec = dict(r["exc"], observable="exception", tags=tags)
         rec["detail"] = "%s | shape %s" % (rec["detail"].replace("\n", " | ")[:300], ",".join(sorted(prog["tags"])))
@@ -56,23 +56,21 @@ def record_for(prog, j, r):
 
 
 def evaluate(ctx, progs, cover):
-    items = [(p, j, False) for p in progs for j in range(len(p["variants"]))]
-    out = par.pmap(inst_run.check_variant, items, inst_run.PROCS)
-    n_asbuilt_diff = 0
-    for (p, j, _), r in zip(items, out):
+    out = inst_run.evaluate(ctx, progs, False, "Instantiate_file_asbuilt_log.cfg")
+    for p, j, r, a in out:
         ctx.programs += 1
         for t in p["tags"]:
             cover[t] = cover.get(t, 0) + 1
-        for rec in record_for(p, j, r):
-            ctx.violation(rec, inst_run.scenario_of(p, j))
+        for rec in record_for(p, j, r, a):
+            sc = inst_run.scenario_of(p, j)
+            sc["asbuilt"] = a
+            ctx.violation(rec, sc)
         if r["drift"]:
             ctx.note_drift("attribute-value-differs(C08 territory)", r["drift"])
         if r["kind"] == "ok" and not r["diffs"]:
             ctx.sample({"top": p["top"], "tags": p["tags"], "text": inst_run.ir_flat.render_library(p["variants"][j]["lib"]),
                         "expected": inst_run.ir_flat.expected_flat(p["expect"])}, limit=3)
-        if r["asbuilt_same"] is False:
-            n_asbuilt_diff += 1
-    return [(p, j, r) for (p, j, _), r in zip(items, out)], n_asbuilt_diff
+    return [(p, j, r) for p, j, r, a in out]
 
 
 def draw_pvs(rng, n):
@@ -104,7 +102,7 @@ def run(ctx):
     progs, _ = inst_run.run_spec(ctx, cfg, "hier family, intended switches: operational = declarative, one variable per leaf")
     if not progs:
         raise MachineryError("vacuous: no program printed by %s" % cfg)
-    out, _ = evaluate(ctx, progs, cover)
+    out = evaluate(ctx, progs, cover)
     n_enum = len(progs)
     n_drawn = 0
     if thorough:
@@ -129,7 +127,8 @@ def run(ctx):
     violated = sorted({v for r in ab_res for v in r.violated})
     if not violated:
         raise MachineryError("as-built configuration of Instantiate.tla no longer violates any invariant (switches out of date?)")
-    lp, _ = inst_run.run_spec(ctx, "Instantiate_C07_asbuilt_log.cfg", "as-built predictions for the cross-check")
+    lp, _ = inst_run.run_spec(ctx, "Instantiate_C07_asbuilt_log.cfg", "as-built predictions for the cross-check (%s)" % (
+        "whole family" if thorough else "an eighth of the family"), shards=8, only=None if thorough else 1)
     items = [(p, j, False) for p in lp for j in range(len(p["variants"]))]
     res = par.pmap(inst_run.check_variant, items, inst_run.PROCS)
     agree = differ = 0
@@ -167,4 +166,4 @@ def run(ctx):
 def replay(ctx, sc):
     r = inst_run.replay_scenario(sc, False)
     prog = {"tags": sc["tags"], "variants": [{"ctags": sc["ctags"]}]}
-    return record_for(prog, 0, r)
+    return record_for(prog, 0, r, sc.get("asbuilt"))
